@@ -338,3 +338,26 @@ def writes_of(ka: KeyAnalysis, cls: str, method: str, param: str) -> FrozenSet[s
         if base == param:
             return w
     return frozenset()
+
+
+_TBK: Dict[int, FrozenSet[str]] = {}
+
+
+def trial_built_keys(ka: KeyAnalysis) -> FrozenSet[str]:
+    """ham_data keys written by some trial's _build_measurement_intermediates: the measurement intermediates, which a
+    propagation step only ever reads through trial.calc_* (their being built is decided with the trial, C02 / C03)"""
+    k_ = id(ka.p)
+    if k_ in _TBK:
+        return _TBK[k_]
+    out = set()
+    for q in ka.p.subclasses("wavefunctions.wave_function"):
+        fi = ka.p.lookup_method(q, "_build_measurement_intermediates")
+        if fi is None or fi.is_abstract or fi.is_refusal():
+            continue
+        try:
+            out |= set(writes_of(ka, q, "_build_measurement_intermediates", "ham_data"))
+        except AnalysisError:
+            continue
+    _TBK.clear()
+    _TBK[k_] = frozenset(out)
+    return _TBK[k_]
